@@ -239,6 +239,23 @@ def check_state(st, cls, ctx, seed, libnet=False):
             if not torch.equal(bits(y[:, i]), bits(x[:, i])):
                 fails.append(dict(case, clause="identity_not_bitwise", detail="identity feature %d (mask %d) is not returned bit-for-bit: %s -> %s" % (i, mask[i], x[:, i].flatten()[:4].tolist(), y[:, i].flatten()[:4].tolist())))
                 break
+    # (1a'') image inputs in another dense memory layout (height and width swapped in memory, same values):
+    # the same result, identity features bit for bit.  (Library conditioner: convolutional, any image size.)
+    if img and libnet and not bounded and cls != "UMNN":
+        x2 = torch.rand((3, D, 2, 3), generator=g) * 1.2 - 0.6
+        x2.view(-1)[::4] = -0.0
+        xs = x2.permute(0, 1, 3, 2).contiguous().permute(0, 1, 3, 2)
+        try:
+            with torch.no_grad():
+                y2 = f(x2.clone(), c)[0]
+                ys = f(xs, c)[0]
+        except Exception as e:  # noqa
+            y2 = ys = None
+        if ys is not None:
+            n += 1
+            ok_id = uncond or all(torch.equal(bits(ys[:, i]), bits(x2[:, i])) for i in ident)
+            if not ok_id or ys.shape != y2.shape or not torch.allclose(ys, y2, rtol=1e-5, atol=1e-6, equal_nan=True):
+                fails.append(dict(case, clause="identity_not_bitwise" if not ok_id else "layout", detail="image input whose height and width are swapped in memory (same values): %s" % ("identity features are not returned bit for bit" if not ok_id else "outputs differ from those for the contiguous input by %.3g" % float((ys - y2).abs().max()))))
     # (1a') double-precision data through a layer whose conditioner computes in single precision (and handles the
     # casts itself): the identity features still come back bit for bit, in the data's dtype
     if not libnet and not uncond and not bounded and cls != "UMNN":
